@@ -121,7 +121,8 @@ func verifHarness_C16_request(known int, other int) {
 	n := verifBareNode(V2, 1, 1)
 	n.Dialect = d
 	n.StreamRequestEnable = true
-	freq := verifNondetU8()
+	freq := verifNondetU16() // the wire field is 16 bits wide
+	verifAssume(freq > 0)
 	n.StreamRequestFrequency = int(freq)
 	n.dialectRW = &dialect.ReadWriter{Dialect: d}
 	verifAssert(n.dialectRW.Initialize() == nil, "C16/S2/dialect")
@@ -184,7 +185,7 @@ func verifHarness_C16_request(known int, other int) {
 				r := m.(*common.MessageRequestDataStream)
 				verifAssert(r.TargetSystem == sys && r.TargetComponent == comp, "C16/S2/targets-the-sender")
 				verifAssert(r.ReqStreamId == streams[i], "C16/S2/standard-streams-in-order")
-				verifAssert(r.ReqMessageRate == uint16(freq) && r.StartStop == 1, "C16/S2/configured-rate-and-start")
+				verifAssert(r.ReqMessageRate == freq && r.StartStop == 1, "C16/S2/configured-rate-and-start")
 			}
 		}
 		verifAssert(len(n.chEvent) == 1, "C16/S2/one-stream-requested-event")
